@@ -251,9 +251,15 @@ func readConfig(args []string) *CliConfig {
 			log.Fatal("Config read failed", zap.Error(err))
 		}
 	}
-	pools := v.Get("pools").([]any)
+	pools, ok := v.Get("pools").([]any)
+	if !ok {
+		log.Fatal("Config decode failed: pools should be a list", zap.Any("pools", v.Get("pools")))
+	}
 	for i, pool := range pools {
-		poolMap := pool.(map[string]any)
+		poolMap, ok := pool.(map[string]any)
+		if !ok {
+			log.Fatal("Config decode failed: pool should be a map", zap.Int("pool", i), zap.Any("value", pool))
+		}
 		if _, ok := poolMap["discard_overflow"]; !ok {
 			poolMap["discard_overflow"] = true
 		}
